@@ -35,7 +35,7 @@ func (c10) Assumptions() []string {
 	}
 }
 func (c10) Required(tier string) []string {
-	req := []string{"H-hostile", "H-error", "H-reenter", "B-scribble", "B-resize", "D-dirty", "hostile-offset-out-of-range-on-consumed-member", "doc-toodeep", "doc-megatoken", "doc-truncated", "doc-random", "doc-cut-off-part-in-spare-capacity", "doc-from-the-entry-points-own-domain-cut-mid-token"}
+	req := []string{"H-hostile", "H-error", "H-reenter", "B-scribble", "B-resize", "D-dirty", "M-guard", "hostile-offset-out-of-range-on-consumed-member", "doc-toodeep", "doc-megatoken", "doc-truncated", "doc-random", "doc-cut-off-part-in-spare-capacity", "doc-from-the-entry-points-own-domain-cut-mid-token"}
 	return req
 }
 
@@ -232,6 +232,9 @@ func (c10) Gen(r *Rand, sc *Scenario, tier string) {
 		op := Op{Kind: name, Doc: i, Doc2: r.Intn(i + 1)}
 		if !faultFree {
 			op.A = r.Intn(2)
+			if r.Chance(1, 3) {
+				op.A |= 2 // input ends at a page boundary in front of an inaccessible page, and is read-only
+			}
 			op.B = r.Intn(60)
 			if r.Chance(1, 2) {
 				op.C = r.Range(1, 1<<20)
@@ -276,7 +279,13 @@ func (c10) Exec(sc *Scenario, st *Stats) *Violation {
 		x.buf = nil
 		x.henv = nil
 		x.structH = op.B%2 == 1
-		if op.A == 1 {
+		if op.A&2 != 0 && len(d.Tail) == 0 {
+			if g, ok := theGuardRing.place(data); ok {
+				data = g
+				st.fault("M-guard")
+			}
+		}
+		if op.A&1 == 1 {
 			x.buf = shared
 			if op.C != 0 {
 				if scribble(shared, op.C) {
